@@ -313,6 +313,14 @@ class Module:
             aligns[name] = adt.get('repr_align')
         if self.uninit_adt is not None:
             aligns['RecordUninitialized'] = self.uninit_adt.get('repr_align')
+            # the uninitialised record is converted in place to the first variant: same shape, at every capacity
+            ugens = self.uninit_adt['generics']
+            ufields = self.uninit_adt['variants'][0]['fields'] if self.uninit_adt['variants'] else []
+            if len(ugens) != 1 or not ugens[0]['kind'].startswith('Const') or ugens[0]['name'] != 'CAP' \
+                    or len(ufields) != 1 or ufields[0]['ty'] != 'truc_runtime::data::RecordMaybeUninit<CAP>':
+                self.add(['C03'], 'G-LAYOUT', 'RecordUninitialized', 'RecordUninitialized<const CAP> does not consist of exactly one RecordMaybeUninit<CAP> field (%s): at a capacity other than MAX_SIZE its size differs from the record types\'' % [(f['name'], f['ty']) for f in ufields], key='uninit-shape')
+            if self.uninit_adt.get('repr_pack') or self.uninit_adt.get('repr_c') or self.uninit_adt.get('repr_transparent'):
+                self.add(['C03'], 'G-LAYOUT', 'RecordUninitialized', 'unexpected repr on RecordUninitialized', key='uninit-repr')
         vals = set(aligns.values())
         if len(vals) != 1 or None in vals:
             self.add(['C03'], 'G-LAYOUT', None, 'record types of one module carry different repr(align): %s' % aligns, key='align')
